@@ -69,6 +69,8 @@ def host_menu(n):
         ("", ("empty",)),
         (":80", ("emptyhost",)),
         (":", ("emptyhost",)),
+        ('" :80"', ("emptyhost",)),
+        ('"\t:8080"', ("emptyhost",)),
         ('"', ("badquote",)),
         ('"h', ("badquote",)),
         (f'"h{n}.example"x"', ("badquote",)),
@@ -216,7 +218,7 @@ def cases(tier):
             # one odd element at each position
             odd_elems = [
                 ("for=:80", "degenerate"), ("for=[", "degenerate"), ('for="', "400"), ('for="1.1.1.9"x"', "400"), ('host="h9.example" "x"', "400"), ("for", "400"), ("=x", "unspecified"), ("for =1.1.1.1", "400"), ("for= 1.1.1.1", "400"),
-                ("for=1.1.1.1 ;host=h", "400"), ("proto=ftp", "badproto"), ("host=", "unspecified"), ("host=:80", "emptyhost"), ("for=\"[2001:db8::9]:809\"", "ok6"), ("FOR=1.1.1.9;Host=H9.example;PROTO=HTTPS", "okcase"),
+                ("for=1.1.1.1 ;host=h", "400"), ("proto=ftp", "badproto"), ("host=", "unspecified"), ("host=:80", "emptyhost"), ('host=" :80"', "emptyhost"), ('host="\t:8080"', "emptyhost"), ("for=\"[2001:db8::9]:809\"", "ok6"), ("FOR=1.1.1.9;Host=H9.example;PROTO=HTTPS", "okcase"),
                 (";;for=1.1.1.9;;", "ok"), ("", "unspecified"), ("secret=1", "unspecified"), ('host="a\\"b"', "unspecified"), ("for=_hidden", "ok"), ("for=unknown", "ok"), ("for=.:", "degenerate"), ("for=[]", "degenerate"), ("for=[]:1", "degenerate"),
             ]
             for pos in range(L):
